@@ -27,6 +27,7 @@ class T(param.Parameterized):
     y = param.Integer(default=1, bounds=(0, 10))
     c = param.Integer(default=1, constant=True)
     r = param.Integer(default=1, readonly=True)
+    e = param.Event()
 
 
 def _wtable(o):
@@ -50,7 +51,8 @@ def _ref(s, rk):
     return s.param.v.rx() + 0
 
 
-def prog(k: int, p1: int, pv1: int, p2: int, pv2: int, rk: int, kind: int, route: int, bad: int, s0v: int, after0: int) -> None:
+def prog(k: int, p1: int, pv1: int, p2: int, pv2: int, rk: int, kind: int, route: int, bad: int, s0v: int, after0: int,
+         ctx: int = 0) -> None:
     assume(bad < 0 or bad > 10)
     with untraced():
         s0, s1 = S(), S()
@@ -59,7 +61,17 @@ def prog(k: int, p1: int, pv1: int, p2: int, pv2: int, rk: int, kind: int, route
     rk = pick(rk, 0, 2)
     s0.v = s0v
     log = []
-    t.param.watch(lambda *e: log.append([(x.name, x.new) for x in e]), ['x', 'y', 'c', 'r'], onlychanged=False)
+    t.param.watch(lambda *e: log.append([(x.name, x.new) for x in e]), ['x', 'y', 'c', 'r', 'e'], onlychanged=False)
+    if ctx == 1:
+        # the whole history, the rejected attempt and the probes run inside an open batch: the events queued by the
+        # history must stay queued (no watcher runs, the queue length is part of the snapshot)
+        with param.parameterized.batch_call_watchers(t):
+            _body(t, s0, s1, log, clsx, k, p1, pv1, p2, pv2, rk, kind, route, bad, after0, ctx)
+    else:
+        _body(t, s0, s1, log, clsx, k, p1, pv1, p2, pv2, rk, kind, route, bad, after0, ctx)
+
+
+def _body(t, s0, s1, log, clsx, k, p1, pv1, p2, pv2, rk, kind, route, bad, after0, ctx):
     linked = None
     try:
         for (po, pvv) in ((p1, pv1), (p2, pv2))[:k]:
@@ -74,7 +86,7 @@ def prog(k: int, p1: int, pv1: int, p2: int, pv2: int, rk: int, kind: int, route
             elif po == 3:
                 t.param.update(y=pvv)
         kind = pick(kind, 0, 4)
-        route = pick(route, 0, 2)
+        route = pick(route, 0, 3)
         cover('C02.kind.%d' % kind)
         s1.v = bad if kind == 1 else 5
         snap = _snapshot(t, (s0, s1))
@@ -94,13 +106,16 @@ def prog(k: int, p1: int, pv1: int, p2: int, pv2: int, rk: int, kind: int, route
                 setattr(t, name, val)
             elif route == 1:
                 t.param.update({name: val})
+            elif route == 3:
+                # the rejected key comes first, an Event key that is never reached follows
+                t.param.update({name: val, 'e': True})
             else:
                 assume(kind in (0, 3, 4))     # class route: invalid plain value / readonly
                 setattr(T, name, val)
             raised = False
         except (ValueError, TypeError):
             raised = True
-        info = {'kind': kind, 'route': route, 'had_link': linked is not None, 'ref_kind': rk}
+        info = {'kind': kind, 'route': route, 'had_link': linked is not None, 'ref_kind': rk, 'ctx': ctx}
         check('C02.raises', raised, info)
         after = _snapshot(t, (s0, s1))
         check('C02.values', after['values'] == snap['values'] and after['cls'] == snap['cls'], info)
@@ -238,8 +253,8 @@ def dyn(level: int, tgt: int, valk: int, tm: int, bad: int) -> None:
 dyn.ranges = lambda consts: dict(level=(0, 1), tgt=(0, 2), valk=(0, 2), tm=(0, 2))
 
 
-prog.ranges = lambda consts: dict(p1=(0, 3), p2=(0, 3), pv1=(0, 10), pv2=(0, 10), rk=(0, 2), kind=(0, 4), route=(0, 2),
-                                  s0v=(0, 10), after0=(0, 10))
+prog.ranges = lambda consts: dict(p1=(0, 3), p2=(0, 3), pv1=(0, 10), pv2=(0, 10), rk=(0, 2), kind=(0, 4), route=(0, 3),
+                                  s0v=(0, 10), after0=(0, 10), ctx=(0, 1))
 
 
 def shards(tier):
@@ -247,15 +262,16 @@ def shards(tier):
     q = tier == 'quick'
     k = 2
     for kind in range(5):
-        for route in range(3):
+        for route in range(4):
             if route == 2 and kind not in (0, 3, 4):
                 continue
             for rk in range(3):
-                c = dict(k=k, kind=kind, route=route, rk=rk)
-                if k < 2:
-                    c.update(p2=0, pv2=0)
-                out.append(dict(name='k%d_r%d_rk%d' % (kind, route, rk), module='harness.c02', fn='prog', consts=c,
-                                budget_s=60 if q else 400))
+                for ctx in (0, 1):
+                    if ctx == 1 and route == 2:
+                        continue
+                    c = dict(k=k, kind=kind, route=route, rk=rk, ctx=ctx)
+                    out.append(dict(name='k%d_r%d_rk%d_c%d' % (kind, route, rk, ctx), module='harness.c02', fn='prog', consts=c,
+                                    budget_s=60 if q else 400))
     out.append(dict(name='resync', module='harness.c02', fn='resync', consts={}, budget_s=60 if q else 300))
     for level in (0, 1):
         out.append(dict(name='dyn_l%d' % level, module='harness.c02', fn='dyn', consts=dict(level=level), budget_s=60 if q else 300))
@@ -265,4 +281,5 @@ def shards(tier):
 def bounds(tier):
     return dict(prefix_ops=2, prefix_opcodes=['nothing', 'plain set', 'link x to a source', 'update(y)'],
                 reject_kinds=['invalid plain value on x', 'reference with invalid current value', 'constant', 'readonly', 'invalid plain value on y'],
-                routes=['instance', 'single-key update', 'class'], reference_kinds=['Parameter', 'bind', 'rx'])
+                routes=['instance', 'single-key update', 'class', 'update with the rejected key first and an Event key after it'],
+                contexts=['no batch', 'history, attempt and probes inside batch_call_watchers'], reference_kinds=['Parameter', 'bind', 'rx'])
